@@ -387,10 +387,22 @@ class Expect:
         self.defs = defs
         self.dev = {}            # qualified definition name -> set of deviation classes touched
 
+    def qual(self, mod, name):
+        """qualified name of the definition a reference in module `mod` denotes: the module's own
+        definition, else the (unique) definition of that name in another zoo module (IMPORTS)"""
+        q = f"{mod}::{rust_name(name)}"
+        if q in self.defs:
+            return q
+        cands = [k for k in self.defs if k.split("::", 1)[1] == rust_name(name)]
+        if len(cands) == 1:
+            return cands[0]
+        raise Unsupported(f"reference to unknown type {name}")
+
     def default_val(self, mod, ty, lit):
         t = ty
         while t["k"] == "ref":
-            t = self.defs[f"{mod}::{rust_name(t['name'])}"]
+            q = self.qual(mod, t["name"])
+            mod, t = q.split("::")[0], self.defs[q]
         if t["k"] == "int":
             return f"(int {int(lit)})"
         if t["k"] == "bool":
@@ -418,10 +430,10 @@ class Expect:
             return ty["tag"]
         k = ty["k"]
         if k == "ref":
-            q = f"{mod}::{rust_name(ty['name'])}"
-            if q not in self.defs or depth > 20:
+            q = self.qual(mod, ty["name"])
+            if depth > 20:
                 raise Unsupported(f"tag of reference {ty['name']}")
-            return self.type_tag(mod, self.defs[q], depth + 1)
+            return self.type_tag(q.split("::")[0], self.defs[q], depth + 1)
         if k == "choice":
             alts = ty["alts"] if ty["root"] is None else ty["alts"][:ty["root"]]
             if not alts:
@@ -512,10 +524,7 @@ class Expect:
             ea = "none" if root is None else str(root - 1)
             return f"(seq {std_opt} {len(comps)} {ea}" + "".join(" " + f for f in fields) + ")"
         if k == "ref":
-            q = f"{mod}::{rust_name(ty['name'])}"
-            if q not in self.defs:
-                raise Unsupported(f"reference to unknown type {ty['name']}")
-            return self.definition(q, coded, note)
+            return self.definition(self.qual(mod, ty["name"]), coded, note)
         raise Unsupported(k)
 
     def both(self, qual):
@@ -683,7 +692,8 @@ class ToLean:
             ea = "none" if root is None else f"(some {root - 1})"
             return f"(.set {cl(parts[0] + parts[1])} {ea})"
         if k == "ref":
-            return f"(.ref {self.src(mod, self.x.defs[mod + '::' + rust_name(ty['name'])])})"
+            q = self.x.qual(mod, ty["name"])
+            return f"(.ref {self.src(q.split('::')[0], self.x.defs[q])})"
         raise Unsupported(k)
 
 
